@@ -338,3 +338,77 @@ example : setBoundaries [3, 2] 0 exSpecs exField [2, 3] = 21 := by decide +kerne
 example : setBoundaries [3, 2] 0 exSpecs exField [0, 0] = 0 := by decide +kernel
 
 end PdeVerif.BC
+
+/-! ## specifications: the statements about single layers lifted to the whole `parse` -/
+namespace PdeVerif.BCParse
+
+/-- **whole-parse statement for the dictionary format**: an accepted dictionary yields, on every
+axis, exactly what `get_boundary_axis` makes of the two *most specific* entries for the two sides
+(`pick` = declarative precedence: named boundary > `axis±` > axis > `*`, falsy values skipped),
+read from the dictionary after the synonym replacement -/
+theorem parse_dict_axis (g : GridNames) (d : Data) (r : List AxisBC) (h : parse g (.dict d) = .ok r) :
+    ∃ d', renameAlt g.alt d = .ok d' ∧ ∀ ax, ax < g.axes.length →
+      ∃ b, r[ax]? = some b ∧
+        axisOfSides (g.periodic.getD ax false) (pick g d' ax false) (pick g d' ax true) = .ok b := by
+  unfold parse at h
+  simp only [bind, Except.bind] at h
+  cases hd : renameAlt g.alt d with
+  | error e => rw [hd] at h; cases h
+  | ok d' =>
+    rw [hd] at h
+    refine ⟨d', rfl, ?_⟩
+    intro ax hax
+    obtain ⟨y, hy1, hy2⟩ := mapM_except_getElem _ _ _ h ax (by simpa using hax)
+    simp only [List.getElem_range] at hy1
+    rw [parse_most_specific_wins, parse_most_specific_wins] at hy1
+    exact ⟨y, hy2, hy1⟩
+
+/-- two different local conditions for the two sides of a non-periodic axis - in whichever of
+the formats they were written (`{"x-": A, "x+": B}`, named boundaries, wildcard + override, ..) -
+end up as the pair (class of A with A's value, class of B with B's value) -/
+theorem parse_dict_pair (g : GridNames) (d d' : Data) (r : List AxisBC)
+    (h : parse g (.dict d) = .ok r) (hd : renameAlt g.alt d = .ok d') (ax : Nat)
+    (hax : ax < g.axes.length) (n1 n2 : String) (v1 v2 : Nat)
+    (hlo : pick g d' ax false = some (.one (.named n1 v1)))
+    (hhi : pick g d' ax true = some (.one (.named n2 v2))) (hne : (n1, v1) ≠ (n2, v2)) :
+    ∃ k1 k2, kindOf n1 = some k1 ∧ kindOf n2 = some k2 ∧ r[ax]? = some (.pair (k1, v1) (k2, v2)) ∧
+      g.periodic.getD ax false = false := by
+  obtain ⟨d'', hd'', hall⟩ := parse_dict_axis g d r h
+  rw [hd] at hd''
+  cases hd''
+  obtain ⟨b, hb, hax'⟩ := hall ax hax
+  rw [hlo, hhi] at hax'
+  have hne' : (some (Entry.one (Spec.named n1 v1)) : Option Entry) ≠ some (Entry.one (Spec.named n2 v2)) := by
+    intro hc
+    simp only [Option.some.injEq, Entry.one.injEq, Spec.named.injEq] at hc
+    exact hne (by rw [hc.1, hc.2])
+  generalize g.periodic.getD ax false = per at hax' ⊢
+  simp only [axisOfSides, hne', ↓reduceIte, Entry.isPeriodic, Bool.false_eq_true, or_self,
+    Entry.asSide, pairOf, sideBC] at hax'
+  cases hk1 : kindOf n1 with
+  | none => simp [hk1] at hax'
+  | some k1 =>
+    cases hk2 : kindOf n2 with
+    | none =>
+      simp only [hk1, hk2] at hax'
+      split at hax' <;> simp at hax'
+    | some k2 =>
+      simp only [hk1, hk2] at hax'
+      cases per with
+      | true => simp at hax'
+      | false =>
+        simp only [Bool.false_eq_true, ↓reduceIte, Except.ok.injEq] at hax'
+        exact ⟨k1, k2, rfl, rfl, by rw [hb, hax'], rfl⟩
+
+/-- `{"low": A, "high": B}` or `(A, B)` under an axis key is the same as writing the two sides:
+lifted to a whole dictionary with one entry on a one-axis grid without synonyms -/
+example : parse ⟨["x"], [], [], [false]⟩
+      (.dict [("x", .lowHigh (some (.named "value" 1)) (some (.named "derivative" 2)) false)])
+    = parse ⟨["x"], [], [], [false]⟩ (.dict [("x-", .one (.named "value" 1)), ("x+", .one (.named "derivative" 2))]) ∧
+  parse ⟨["x"], [], [], [false]⟩ (.dict [("x", .seq [.named "value" 1, .named "derivative" 2])])
+    = .ok [.pair (.dirichlet, 1) (.neumann, 2)] ∧
+  parse ⟨["x"], [], [], [false]⟩
+      (.dict [("x", .lowHigh (some (.named "value" 1)) (some (.named "derivative" 2)) true)])
+    = .error .bcdata := by decide +kernel
+
+end PdeVerif.BCParse
